@@ -312,6 +312,7 @@ Section ThreadEqualsSingle2.
     destruct (logger_run pm true _ wp) as [[st outs]|]; [|discriminate].
     cbv zeta in H.
     destruct (if c_info cfg && negb (is_nil_list (l_nomsg st)) then _ else _) as [u|] eqn:Hu; [|discriminate].
+    destruct (unmatched_fail pm (l_nofail st) u) as [fl|]; [|discriminate].
     injection H as <-. cbn [o_nomsg o_unmatched]. exact Hu.
   Qed.
 
@@ -328,6 +329,7 @@ Section ThreadEqualsSingle2.
     rewrite (nomsg_queries_static pm true _ _ _ _ [] wp Hn Hf), Hs, map_derive_derive, app_nil_r in Hr.
     cbv zeta in H.
     destruct (if c_info cfg && negb (is_nil_list (l_nomsg st)) then _ else _) as [u|]; [|discriminate].
+    destruct (unmatched_fail pm (l_nofail st) u) as [fl|]; [|discriminate].
     injection H as <-. cbn [o_nomsg]. exact Hr.
   Qed.
 
